@@ -245,6 +245,10 @@ def extract_function(inference_state, path, module_context, name, pos, until_pos
 
         remaining_prefix, code_block = _suite_nodes_to_string(nodes, pos)
         after_leaf = nodes[-1].get_next_leaf()
+        if after_leaf is None:
+            # The range ends in the endmarker (e.g. in a comment at the end
+            # of the file).
+            raise RefactoringError('Cannot extract anything from that')
         first, second = _split_prefix_at(after_leaf, until_pos[0])
         code_block += first
 
